@@ -2,6 +2,7 @@
 package main
 
 import (
+	"encoding/json"
 	"flag"
 	"fmt"
 	"os"
@@ -30,8 +31,20 @@ func main() {
 	exploreKind := flag.String("explore-kind", "swap", "swap|delete")
 	explorePkg := flag.String("explore-pkg", "", "explore packages whose path contains this string instead of package ro (e.g. plugins/, ee/plugins/prometheus)")
 	explore := flag.String("explore", "", "development aid: statement-swap mutants of functions whose name contains this string ('all'); prints the ones no rule reports")
+	listRules := flag.Bool("list-rules", false, "print property id -> rule names as JSON and exit")
 	flag.Parse()
 
+	if *listRules {
+		out := map[string][]string{}
+		for _, id := range rules.IDs() {
+			for _, r := range rules.ByID(id).Rules {
+				out[id] = append(out[id], r.Name)
+			}
+		}
+		b, _ := json.MarshalIndent(out, "", " ")
+		os.Stdout.Write(b)
+		return
+	}
 	if *explain != "" {
 		b, err := os.ReadFile(*explain)
 		if err != nil {
